@@ -125,7 +125,7 @@ func (h *histRun) checkC03() {
 					}
 				}
 			}
-			if viaRevived {
+			if viaRevived || h.heldViaStale(c, rc, rid) {
 				h.stat("c03_pairs_skipped_known", 1)
 				continue
 			}
